@@ -458,6 +458,6 @@ func main() {
 		Corpus: []string{"P pre.put:1:7;get:1;blk.put:1:8;get:1;pre.put:1:9;get:1", "P pre.ont:5;pre.bal;blk.ont:5;pre.bal;pre.ont:1000000000;pre.ont:999999995",
 			"P pre.batch:3:10;pre.batch:2:1000000001;pre.bal", "P pre.deploy:o;pre.deploy:w;pre.bad", "P pre.evm:1:7;pre.call:2:9;pre.evm:1:8",
 			"P blk.ont:1000000001;pre.bal;get:3"},
-		N: map[string]int{"quick": 150, "thorough": 5000},
+		N: map[string]int{"quick": 100, "thorough": 2000},
 	})
 }
